@@ -5,6 +5,7 @@ package main
 import (
 	"fmt"
 	"go/ast"
+	"go/token"
 	"go/types"
 	"strings"
 )
@@ -334,6 +335,9 @@ func (vc *VC) callByContract(st *State, x *ast.CallExpr, fc *FuncContract, ci *c
 	vc.facts = append(vc.facts, "(>= "+na.S+" "+a+")")
 	st.heaps[allocHeap] = na
 	results = vc.freshResults(st, sig, "r_"+ci.fn.Name())
+	if fc.FreshResult && len(results) > 0 {
+		vc.freshResult[results[0].S] = true
+	}
 	ctx.cur = st
 	ctx.old = old
 	vc.bindResults(ctx, ci.fn, results)
@@ -595,6 +599,9 @@ func (u *Universe) ensureSliceCat(s *Sort) string {
 // callCallback: a call through a function value that has a callback contract in the enclosing contract.
 func (vc *VC) callCallback(st *State, x *ast.CallExpr, cb *CallbackSpec, sig *types.Signature, fv Term, args []Term) []Term {
 	ctx := vc.newSpecCtx(vc.contract, st, vc.entry)
+	if n := len(vc.loopStack); n > 0 {
+		ctx.snap = vc.loopStack[n-1]
+	}
 	vc.bindOwnParams(ctx)
 	for i, a := range args {
 		ctx.vars[fmt.Sprintf("arg%d", i)] = a
@@ -610,6 +617,15 @@ func (vc *VC) callCallback(st *State, x *ast.CallExpr, cb *CallbackSpec, sig *ty
 		vc.havocAllHeaps(st)
 	}
 	results := vc.freshResults(st, sig, "r_"+smtName(cb.Name))
+	// ghost bookkeeping: number of calls and the error returned by the last call
+	nv := vc.callbackVar("ncalls", cb.Name)
+	cur := vc.readVar(st, nv)
+	st.vars[nv] = Term{"(+ " + cur.S + " 1)", sortInt}
+	for i := 0; i < sig.Results().Len(); i++ {
+		if vc.U.sortOf(sig.Results().At(i).Type()).Kind == KAny {
+			st.vars[vc.callbackVar("lasterr", cb.Name)] = results[i]
+		}
+	}
 	ctx.cur, ctx.old = st, old
 	for i, r := range results {
 		ctx.vars[fmt.Sprintf("result%d", i)] = r
@@ -622,4 +638,29 @@ func (vc *VC) callCallback(st *State, x *ast.CallExpr, cb *CallbackSpec, sig *ty
 		vc.assume(st, t.S)
 	}
 	return results
+}
+
+
+// callbackVar returns the ghost variable counting calls of / holding the last error of a callback.
+func (vc *VC) callbackVar(kind, name string) *types.Var {
+	key := kind + ":" + name
+	if vc.cbVars == nil {
+		vc.cbVars = map[string]*types.Var{}
+	}
+	if v, ok := vc.cbVars[key]; ok {
+		return v
+	}
+	var t types.Type = types.Typ[types.Int]
+	if kind == "lasterr" {
+		t = types.Universe.Lookup("error").Type()
+	}
+	v := types.NewVar(token.NoPos, vc.pkg.Types, "$"+key, t)
+	vc.cbVars[key] = v
+	// initial value at function entry
+	if kind == "ncalls" {
+		vc.entry.vars[v] = Term{"0", sortInt}
+	} else {
+		vc.entry.vars[v] = Term{"anynil", sortAny}
+	}
+	return v
 }
